@@ -61,6 +61,7 @@ timeout: 600
 unsigned long spiftool_num_words(const spif_charptr_t str)
 {
     __CPROVER_assert(str != NULL && __CPROVER_r_ok(str, 1), "num_words contract: str readable");
+    if (str[0] == 0) return 0;                          /* the empty string has no words */
     size_t n = strlen((const char *) str);
     unsigned long r = nondet_ulong();
     __CPROVER_assume(r <= n / 2 + 1);
